@@ -581,6 +581,57 @@ func vApplyC03(s *vbe.Store, m vMutC03) bool {
 	return true
 }
 
+// vBoundaryC03 is one deterministic boundary truncation.
+type vBoundaryC03 struct {
+	Rank int // file by rank in r.files
+	Mut  vMutC03
+	Kind string // trunc0 trunc1 trunc-last trunc-region
+}
+
+// boundaryMuts enumerates, for every file a snapshot depends on (each indexed pack, index,
+// snapshot, the config, the opening key), the truncations to 0 bytes, 1 byte, len-1 bytes and
+// to every boundary the region model knows (nonce end, MAC start, blob ends, pack header
+// start, length field). full=false: truncation to 0 for every such file, 1 and len-1 only
+// for the first file of each type.
+func (r *vRepoC03) boundaryMuts(full bool) []vBoundaryC03 {
+	var out []vBoundaryC03
+	firstOfType := map[backend.FileType]bool{}
+	for rank, k := range r.files {
+		if k.Type == backend.KeyFile && k.Name != r.keyID {
+			continue
+		}
+		if _, indexed := r.packs[k.Name]; k.Type == backend.PackFile && !indexed {
+			continue
+		}
+		size := r.sizes[k]
+		first := !firstOfType[k.Type]
+		firstOfType[k.Type] = true
+		seen := map[int]bool{}
+		add := func(off int, kind string) {
+			if off < 0 || off >= size || seen[off] {
+				return
+			}
+			seen[off] = true
+			where := vTypeNameC03(k.Type) + "/whole"
+			if off > 0 {
+				where = r.classify(k, off)
+			}
+			out = append(out, vBoundaryC03{Rank: rank, Kind: kind, Mut: vMutC03{Type: k.Type.String(), Name: k.Name, Op: "trunc", Off: off, Where: where}})
+		}
+		add(0, "trunc0")
+		if full || first {
+			add(1, "trunc1")
+			add(size-1, "trunc-last")
+		}
+		if full {
+			for _, rg := range r.regions(k) {
+				add(rg.Lo, "trunc-region")
+			}
+		}
+	}
+	return out
+}
+
 // effective lists, after all changes were applied to s, the touched files whose stored
 // bytes really differ from the healthy repository (two changes may cancel each other), as
 // synthetic changes with Op "delete" (file gone) or "set" (content differs).
